@@ -302,7 +302,7 @@ fn main() {
         let boundary_events = rec.events;
         // (2) random bit patterns
         let mut rng = Rng::new(common::mix(&[seed, 18]));
-        let nrandom = if thorough { 300_000 } else { 25_000 };
+        let nrandom = if thorough { 800_000 } else { 25_000 };
         for _ in 0..nrandom {
             let (x, y) = (random_f64(&mut rng), random_f64(&mut rng));
             let (fx, fy) = (rec.cvt(x), rec.cvt(y));
@@ -314,7 +314,7 @@ fn main() {
             }
         }
         // (3) chains of depth <= 4 whose intermediates need all 64 significand bits
-        let nchains = if thorough { 200_000 } else { 20_000 };
+        let nchains = if thorough { 500_000 } else { 20_000 };
         for _ in 0..nchains {
             let mut cur = rec.cvt(random_f64(&mut rng));
             let depth = rng.range_usize(2, 4);
@@ -348,7 +348,7 @@ fn main() {
         // (4) deep product / quotient chains that reach the 80-bit underflow and overflow zones (f64 operands alone
         // never get near 2^-16382 or 2^16383): 15 factors of about 2^-1022 (or 2^1022), then one that lands the result
         // in the subnormal band / next to the overflow threshold, then neighbours by multiplying with 2^k
-        let ndeep = if thorough { 4000 } else { 400 };
+        let ndeep = if thorough { 20_000 } else { 400 };
         for it in 0..ndeep {
             let down = it % 2 == 0;
             let base = if down { 2f64.powi(-1022) } else { 2f64.powi(1022) };
